@@ -169,7 +169,7 @@ Definition step (l : lab) (s : cl) : cl :=
         if started s1 then set_paused (let s2 := stop_drain s1 in set_timer s2 TLong (tok s2)) true else s1
       else s
   | Reconn =>
-      if negb (conn s) && started s then
+      if negb (conn s) && started s && negb (closing s) then
         let s1 := emit (set_conn s true) (EReconn (now s)) in
         let s2 := set_paused s1 false in
         if negb (pend s2 =? 0) then set_timer s2 (TShort (now s2 + timeout s2)) (tok s2)
